@@ -397,6 +397,12 @@ def register_extra(M, it_of, to_iter, drain):
         return UNIT
     M.add(V + r"retain::<.*>", vec_retain)
 
+    def map_retain(c, m, a):
+        mp = deref(a[0])
+        mp.entries[:] = [e for e in mp.entries if dec(c, c.call_callable(a[1], [new_ref(e[0]), new_ref(e[1], True)]))]
+        return UNIT
+    M.add(r"(?:BTreeMap|HashMap)::<.*>::retain::<.*>", map_retain)
+
     def vec_truncate(c, m, a):
         v = deref(a[0])
         del v.items[conc(a[1], "truncate length"):]
@@ -743,6 +749,8 @@ def register_extra(M, it_of, to_iter, drain):
         string_extend(c, m, [new_ref(out, True), a[0]])
         return out
     M.add(r"<String as FromIterator<.*>>::from_iter::<.*>", string_from_iter)
+
+    M.add(r"<Vec<.*> as FromIterator<.*>>::from_iter::<.*>", lambda c, m, a: VecBuf(list(drain(c, to_iter(c, a[0])))))
 
     def string_write_str(c, m, a):
         deref(a[0]).chars.extend(as_str(a[1]).chars)
